@@ -344,20 +344,18 @@ func ruleC05Trailer(c *Ctx) {
 			}
 		}
 	}
-	// the cleanup closure itself
-	lits := c.litsIn(newTW)
-	if len(lits) != 1 {
-		c.unresolved("NewTapeWriter has %d closures (expected the cleanup closure)", len(lits))
+	// the cleanup function itself (a closure of NewTapeWriter, or a method whose value NewTapeWriter returns)
+	l, isRegCarrier := c.tapeCleanup(newTW)
+	if l == nil {
+		c.unresolved("the cleanup function returned by NewTapeWriter could not be located")
 		return
 	}
-	l := lits[0]
 	info := l.Pkg.TypesInfo
 	fl := c.flow(l)
 	var dirtyParam types.Object
-	if len(l.Lit.Type.Params.List) == 1 && len(l.Lit.Type.Params.List[0].Names) == 1 {
-		dirtyParam = info.Defs[l.Lit.Type.Params.List[0].Names[0]]
+	if ft := l.Type(); ft != nil && len(ft.Params.List) == 1 && len(ft.Params.List[0].Names) == 1 {
+		dirtyParam = info.Defs[ft.Params.List[0].Names[0]]
 	}
-	isReg := paramVar(newTW, "isRegular")
 	var closeCall, flushCall, padCall *ast.CallExpr
 	for _, cs := range l.calls {
 		switch {
@@ -370,7 +368,7 @@ func ruleC05Trailer(c *Ctx) {
 		}
 	}
 	if closeCall == nil {
-		c.bad(rule, l, "trailer close", l.Lit.Pos(), "the cleanup closure never closes the tar writer: no archive gets its trailer")
+		c.bad(rule, l, "trailer close", l.Pos(), "the cleanup closure never closes the tar writer: no archive gets its trailer")
 	} else {
 		okk, _ := fl.guardedBy(closeCall, func(ft Fact) bool {
 			st, ok := ast.Unparen(ft.E).(*ast.StarExpr)
@@ -379,9 +377,9 @@ func ruleC05Trailer(c *Ctx) {
 		c.verdictIf(okk, rule, l, "trailer close", closeCall.Pos(), "tar writer closed (trailer written) exactly when *dirty", "the tar writer's Close is not conditional on *dirty: an untouched call would append an empty archive, or a dirty one none")
 	}
 	if flushCall == nil || padCall == nil {
-		c.bad(rule, l, "tape padding", l.Lit.Pos(), "non-regular drives are no longer padded to a full record and flushed")
+		c.bad(rule, l, "tape padding", l.Pos(), "non-regular drives are no longer padded to a full record and flushed")
 	} else {
-		okF, _ := fl.guardedBy(flushCall, func(ft Fact) bool { return objOfIdent(info, ft.E) == types.Object(isReg) && !ft.Pos }, nil)
+		okF, _ := fl.guardedBy(flushCall, func(ft Fact) bool { return isRegCarrier(info, ft.E) && !ft.Pos }, nil)
 		okO, _ := c.successDominates(fl, flushCall, func(call *ast.CallExpr) bool { return call == closeCall }, nil)
 		c.verdictIf(okF && okO, rule, l, "tape padding", flushCall.Pos(), "for tapes the record is padded and flushed after the trailer", "padding/flush of tape records is not (only) on the non-regular path after the trailer")
 	}
@@ -437,4 +435,66 @@ func ruleC05Pax(c *Ctx) {
 		})
 		c.verdictIf(found, rule, f, "wrapper format", f.Decl.Pos(), "wrapper header is PAX", "the wrapper header is not created with Format = tar.FormatPAX: its embedded-header record cannot be encoded")
 	}
+}
+
+// tapeCleanup locates the function NewTapeWriter hands out as its second result - the closure written in place, or a
+// method whose method value is returned (`return t.tw, t.cleanup, nil`) - and returns it with a predicate that
+// recognises "the drive is a regular file" inside it: the isRegular parameter itself or a struct field that
+// NewTapeWriter initialises from it.
+func (c *Ctx) tapeCleanup(newTW *FuncInfo) (*FuncInfo, func(info *types.Info, e ast.Expr) bool) {
+	info := newTW.Pkg.TypesInfo
+	isReg := paramVar(newTW, "isRegular")
+	carriers := map[types.Object]bool{}
+	if isReg != nil {
+		carriers[isReg] = true
+	}
+	walkOwn(newTW.Body(), func(nd ast.Node) {
+		switch x := nd.(type) {
+		case *ast.KeyValueExpr:
+			if isReg != nil && objOfIdent(info, x.Value) == types.Object(isReg) {
+				if id, ok := x.Key.(*ast.Ident); ok {
+					if o := info.Uses[id]; o != nil {
+						carriers[o] = true
+					}
+				}
+			}
+		case *ast.AssignStmt:
+			for i, r := range x.Rhs {
+				if isReg != nil && objOfIdent(info, r) == types.Object(isReg) && i < len(x.Lhs) {
+					if fv := selField(info, x.Lhs[i]); fv != nil {
+						carriers[fv] = true
+					}
+				}
+			}
+		}
+	})
+	pred := func(info *types.Info, e ast.Expr) bool {
+		e = ast.Unparen(e)
+		if o := objOfIdent(info, e); o != nil && carriers[o] {
+			return true
+		}
+		if fv := selField(info, e); fv != nil && carriers[fv] {
+			return true
+		}
+		return false
+	}
+	var found *FuncInfo
+	for _, ret := range returnsIn(newTW) {
+		if len(ret.Results) < 2 {
+			continue
+		}
+		switch x := ast.Unparen(ret.Results[1]).(type) {
+		case *ast.FuncLit:
+			found = c.byLit[x]
+		case *ast.SelectorExpr:
+			if fn, ok := info.Uses[x.Sel].(*types.Func); ok {
+				found = c.byObj[fn]
+			}
+		case *ast.Ident:
+			if v, ok := info.Uses[x].(*types.Var); ok {
+				found = c.litOfVar[v]
+			}
+		}
+	}
+	return found, pred
 }
